@@ -297,7 +297,9 @@ def rule_r5(facts, rep, rid="C18-R5"):
         found += 1
         rep.saw_fn(f)
         c = ctx(f)
-        ids = [x for x in fb.walk(f.body) if x.get("k") == "mcall" and (fb.callee(x) or "").endswith("NodePath::ids")]
+        # the ids of the path: through the accessor, or - inside NodePath's own methods - the field itself
+        ids = [x for x in fb.walk(f.body) if (x.get("k") == "mcall" and (fb.callee(x) or "").endswith("NodePath::ids")) or
+               (x.get("k") == "field" and x.get("name") == "ids" and "NodePath" in str(x.get("bty") or ""))]
         if not ids:
             rep.violation(rid, f.def_ + "|renders-ids-in-order", "does not enumerate path.ids()", f.loc)
             continue
